@@ -129,7 +129,7 @@ def configs(quick):
     # combinations the proposal accepts / rejects
     # RescaleToBounds option product: every assignment with <= 2 departures from the defaults
     # (quick) / the full product (thorough), single entry and two-parameter block
-    out.extend(rtb_product(2 if quick else None))
+    out.extend(rtb_product(3 if quick else None))
     one("mixed", {"x0": "inversion", "x1": "logit"})
     one("fallback-zscore", None, "wide", "sym", {"fallback_reparameterisation": "zscore"})
     one("fallback-default", None, "wide", "sym", {"fallback_reparameterisation": "default"})
@@ -636,7 +636,7 @@ def run(ctx):
     ctx.assume(
         "points where the map is singular are excluded exactly when the forward image is not finite; for periodic / angular maps the identified end points and the 1e-5 edge neighbourhood are excluded from the round trip",
         "log-Jacobian antisymmetry is required to 1e-10 + 64*eps*kappa(x), kappa = max(1/u, 1/(1-u)) of the unit coordinate (one ulp at a logit bound moves the log-Jacobian by ln 2)",
-        "RescaleToBounds is additionally covered by the product of its option values (rescale_bounds x boundary_inversion {none, all, subset} x inversion type x detect_edges x offset x update_bounds x prime prior x post-rescaling; quick: every assignment with <= 2 departures from the defaults, thorough: the full product), as a single entry and as a two-parameter block; a combination refused at initialisation is outside the property (log/logit with bound updates is refused with a RuntimeError, boundary inversion followed by a logit by nessai's own invertibility test); any other refusal by that test is reported",
+        "RescaleToBounds is additionally covered by the product of its option values (rescale_bounds x boundary_inversion {none, all, subset} x inversion type x detect_edges x offset x update_bounds x prime prior x post-rescaling; quick: every assignment with <= 3 departures from the defaults, thorough: the full product), as a single entry and as a two-parameter block; a combination refused at initialisation is outside the property (log/logit with bound updates is refused with a RuntimeError, boundary inversion followed by a logit by nessai's own invertibility test); any other refusal by that test is reported",
         "finite-difference Jacobian (relative step 1e-6) on interior lattice points for dimension-preserving maps without auxiliary radii; uniform-comoving-volume distance prior excluded (astropy absent, no tractable Jacobian)",
     )
 
